@@ -31,6 +31,8 @@ CONSTANTS
   WakerBits,    \* function: waker id -> slab bit index (for Kind = "waker")
   Scripts,      \* function: thread id (1..N) -> script (sequence of ops); Kind-specific
   MainScript,   \* script of the main thread (thread 0)
+  HProg,        \* function: waker id -> [wake |-> actions, final |-> actions] run by its handler on the main
+                \* thread, inside poll_wake (<<"drop", w>>, <<"wake", w>>, <<"poll">>); wakers not in its domain just log
   OrdSet,       \* ordering passed by BitMap::set's fetch_or   ("SeqCst", "AcqRel", "Release", "Acquire", "Relaxed")
   OrdDrain      \* ordering passed by Leaf::drain's swap
 
@@ -69,6 +71,9 @@ ThInit(t) ==
     w |-> 0, bit |-> 0, lvl |-> "", ret |-> "",       \* bitmap set in progress
     todo |-> << >>, rv |-> << >>, drain |-> FALSE,     \* poll in progress (main)
     hq |-> << >>,                                       \* handler continuation (main)
+    hact |-> << >>, hdel |-> FALSE, cur |-> 0,          \* rest of the running handler's program, its kind, its slot
+    stk |-> << >>,                                      \* frames of poll_wake calls suspended by a re-entrant one
+
     v |-> 0, flag |-> FALSE, view |-> {} ]
 
 SInit ==
@@ -94,6 +99,7 @@ SInit ==
     \* piped thread
     psend |-> << >>, precv |-> << >>, cancel |-> FALSE, ppanic |-> "", cvn |-> {},   \* cvn: threads notified on the condvar
     written |-> {},       \* publication: plain writes done, as <<thread, n>>
+    panicked |-> FALSE,   \* a runtime assertion of WakeHandlers fired (slot borrowed twice / deleted while borrowed)
     evs |-> << >>, lo |-> << >> ]
 
 Init ==
@@ -131,7 +137,7 @@ NextOp(x, t) ==
 StartSet(x, t, bit, ret) ==
   [x EXCEPT !.th[t].bit = bit, !.th[t].lvl = "leaf", !.th[t].ret = ret, !.th[t].pc = "set"]
 
-RECURSIVE ProcessRv(_)
+RECURSIVE ProcessRv(_), RunHActs(_)
 \* what happens when the set returns
 AfterSet(x, t) ==
   LET r == x.th[t].ret IN
@@ -146,6 +152,10 @@ AfterSet(x, t) ==
          ProcessRv(Emit(MUnlock([MUnlock(x, t, "DL") EXCEPT !.cq = << >>, !.th[0].pc = "inpoll"], t, "CH"), t, [e |-> "guard_drop_end"]))
     [] r = "lsend" ->
          NextOp(Emit(x, t, [e |-> "lsend_end", v |-> x.th[t].v, res |-> ~x.th[t].flag]), t)
+    [] r = "hdrop" ->  \* Waker dropped by a handler: the handler's program goes on
+         RunHActs(Emit(MUnlock([x EXCEPT !.th[0].pc = "inpoll"], 0, "DL"), 0, [e |-> "wdrop_end", w |-> x.th[0].w]))
+    [] r = "hwake" ->
+         RunHActs(Emit([x EXCEPT !.th[0].pc = "inpoll"], 0, [e |-> "wake_end", w |-> x.th[0].w]))
     [] r = "exit" ->   \* worker thread's Waker dropped: thread ends
          Lo([MUnlock(x, t, "DL") EXCEPT !.th[t].pc = "done"], t, [k |-> "end"])
 
@@ -181,13 +191,21 @@ WakerOfBit(x, bit) == {w \in DOMAIN x.wbit : x.wbit[w] = bit}
 \* scheduling point) or the list is exhausted
 EndPoll(x) ==
   LET x1 == Emit(x, 0, [e |-> "poll_end"]) IN
-  IF x.th[0].drain
+  IF x.th[0].stk # << >>
+  THEN \* a re-entrant poll_wake returns into the handler that called it
+       LET f == Head(x.th[0].stk) IN
+       RunHActs([x1 EXCEPT !.th[0].stk = Tail(@), !.th[0].rv = f.rv, !.th[0].hact = f.hact, !.th[0].hdel = f.hdel,
+                           !.th[0].hq = f.hq, !.th[0].cur = f.cur, !.th[0].todo = << >>])
+  ELSE IF x.th[0].drain
   THEN \* the event loop polls again while it is being notified
        LET was == x1.notified
            x2 == Emit([x1 EXCEPT !.notified = FALSE], 0, [e |-> "pollcheck", notified |-> was])
        IN IF was THEN [Emit(x2, 0, [e |-> "poll_begin"]) EXCEPT !.th[0].pc = "swap_top"]
           ELSE [Emit(x2, 0, [e |-> "quiesce"]) EXCEPT !.th[0].pc = "finished"]
   ELSE NextOp(x1, 0)
+
+\* slots whose handler is out of the slab because it is running (this poll or a suspended one)
+Borrowed(x) == ({x.th[0].cur} \cup {x.th[0].stk[i].cur : i \in 1..Len(x.th[0].stk)}) \ {0}
 
 \* handler ids: which user handler sits in a slab slot.  For Kind = "waker"
 \* the handler of waker w logs handler(w, deleted); dropped wakers keep
@@ -204,10 +222,17 @@ ProcessRv(x) ==
           THEN \* control handler: drops the ChannelGuard from inside poll_wake
                [Emit(Emit(x1, 0, [e |-> "handler", w |-> CtlW, deleted |-> FALSE]), 0, [e |-> "guard_drop_begin"])
                   EXCEPT !.th[0].pc = "lock_ch", !.th[0].ret = "gdrop_h"]
+          ELSE IF bit \in Borrowed(x)
+          THEN \* handler_borrow finds the slot empty: "Wake handler has been borrowed from its slot twice"
+               [Emit(x1, 0, [e |-> "panic", msg |-> "wake handler borrowed twice"]) EXCEPT !.panicked = TRUE, !.th[0].pc = "dead"]
           ELSE IF Kind = "waker" \/ \E w \in PlainW : w \in DOMAIN x.hid /\ x.hid[w] = bit
-          THEN LET ws == {w \in DOMAIN x.hid : x.hid[w] = bit} IN
-               ProcessRv(IF ws = {} THEN x1
-                         ELSE Emit(x1, 0, [e |-> "handler", w |-> CHOOSE w \in ws : TRUE, deleted |-> FALSE]))
+          THEN LET ws == {w \in DOMAIN x.hid : x.hid[w] = bit}
+                   w == CHOOSE w \in ws : TRUE IN
+               IF ws = {} THEN ProcessRv(x1)
+               ELSE IF w \in DOMAIN HProg /\ HProg[w].wake # << >>
+               THEN RunHActs([Emit(x1, 0, [e |-> "handler", w |-> w, deleted |-> FALSE])
+                                EXCEPT !.th[0].hact = HProg[w].wake, !.th[0].hdel = FALSE, !.th[0].cur = bit])
+               ELSE ProcessRv(Emit(x1, 0, [e |-> "handler", w |-> w, deleted |-> FALSE]))
           ELSE \* channel / piped handler: first takes its own lock
                [x1 EXCEPT !.th[0].pc = "hlock", !.th[0].flag = FALSE]
 
@@ -217,13 +242,41 @@ ProcessDel(x, bits) ==
   IF bits = << >> THEN ProcessRv(x)
   ELSE LET bit == Head(bits) IN
        IF IsBase(bit) \/ bit \notin x.handlers THEN ProcessDel(x, Tail(bits))
+       ELSE IF bit \in Borrowed(x)
+       THEN \* the slot of a running handler is removed under it: handler_restore will find it gone
+            [Emit(x, 0, [e |-> "panic", msg |-> "wake handler slot deleted during handler call"]) EXCEPT !.panicked = TRUE, !.th[0].pc = "dead"]
        ELSE LET x1 == [x EXCEPT !.handlers = @ \ {bit}, !.free = <<bit>> \o @] IN
             IF Kind = "waker" \/ \E pw \in PlainW : pw \in DOMAIN x.hid /\ x.hid[pw] = bit
             THEN LET ws == {w \in DOMAIN x.hid : x.hid[w] = bit}
                      w == CHOOSE w \in ws : TRUE
-                 IN ProcessDel(Emit([x1 EXCEPT !.hid = [k \in DOMAIN @ \ {w} |-> @[k]]], 0,
-                                    [e |-> "handler", w |-> w, deleted |-> TRUE]), Tail(bits))
+                     x2 == Emit([x1 EXCEPT !.hid = [k \in DOMAIN @ \ {w} |-> @[k]]], 0,
+                                [e |-> "handler", w |-> w, deleted |-> TRUE])
+                 IN IF w \in DOMAIN HProg /\ HProg[w].final # << >>
+                    THEN RunHActs([x2 EXCEPT !.th[0].hact = HProg[w].final, !.th[0].hdel = TRUE, !.th[0].hq = Tail(bits)])
+                    ELSE ProcessDel(x2, Tail(bits))
             ELSE [x1 EXCEPT !.th[0].pc = "hlock", !.th[0].flag = TRUE, !.th[0].hq = Tail(bits)]
+
+\* the rest of the running handler's program; then poll_wake / process_waker_drops goes on
+RunHActs(x) ==
+  LET th == x.th[0] IN
+  IF th.hact = << >>
+  THEN IF th.hdel THEN ProcessDel([x EXCEPT !.th[0].hdel = FALSE, !.th[0].cur = 0], th.hq)
+       ELSE ProcessRv([x EXCEPT !.th[0].cur = 0])
+  ELSE LET a == Head(th.hact)
+           x1 == [x EXCEPT !.th[0].hact = Tail(@)] IN
+       CASE a[1] = "drop" ->
+              IF a[2] \notin DOMAIN x.wbit THEN RunHActs(Emit(x1, 0, [e |-> "nop"]))
+              ELSE [Emit(x1, 0, [e |-> "wdrop_begin", w |-> a[2]]) EXCEPT !.th[0].w = a[2], !.th[0].pc = "lock_dl", !.th[0].ret = "hdrop"]
+         [] a[1] = "wake" ->
+              IF a[2] \notin DOMAIN x.wbit THEN RunHActs(Emit(x1, 0, [e |-> "nop"]))
+              ELSE LET wr == <<0, 0>>
+                       x2 == [x1 EXCEPT !.written = @ \cup {wr}, !.th[0].view = @ \cup {wr}, !.th[0].w = a[2]]
+                   IN StartSet(Emit(x2, 0, [e |-> "wake_begin", w |-> a[2]]), 0, x.wbit[a[2]], "hwake")
+         [] a[1] = "poll" ->
+              \* Stakker::poll_wake called from inside a handler
+              LET f == [rv |-> th.rv, hact |-> Tail(th.hact), hdel |-> th.hdel, hq |-> th.hq, cur |-> th.cur]
+              IN [Emit(x1, 0, [e |-> "poll_begin"]) EXCEPT !.th[0].stk = <<f>> \o @, !.th[0].pc = "swap_top",
+                                                          !.th[0].cur = 0, !.th[0].hact = << >>, !.th[0].hdel = FALSE]
 
 DrainStep(x) ==
   LET th == x.th[0] IN
@@ -322,7 +375,7 @@ RecvCheck(x, t) ==
 \* after acquiring a lock
 Locked(x, t) ==
   LET r == x.th[t].ret IN
-  CASE r = "drop" \/ r = "gdropdl" \/ r = "gdropdl_h" \/ r = "exit" ->
+  CASE r = "drop" \/ r = "gdropdl" \/ r = "gdropdl_h" \/ r = "exit" \/ r = "hdrop" ->
          \* Waker::drop: push the id, then set the bitmap's reserved bit, all under the drop-list lock
          LET w == x.th[t].w
              bit == x.wbit[w]
@@ -454,6 +507,7 @@ Next ==
 Spec == Init /\ [][Next]_vars
 
 NoViolation == bad = {}
+NoPanic == ~s.panicked
 
 \* C11, second sentence: when a handler call serves a wake, the plain writes
 \* the waking thread made before wake() are in the main thread's view.
